@@ -72,6 +72,25 @@ Example C08_nonvacuous :
   cmd lib_model_ok (fun _ => false) V30 demo_u <> Failed.
 Proof. exact demo_cmd. Qed.
 
+(* the configuration clause compares the OAuth flows one by one, scopes included: the demo
+   document passes, the same document with every flow advertising the union of the scopes does not *)
+Example C08_sections_flows :
+  sections_ok (u_cfg demo_u) demo_doc = true /\
+  sections_ok (u_cfg demo_u)
+    (mkDoc (doc_title demo_doc) (doc_version demo_doc) (doc_servers demo_doc)
+           (map union_flows (doc_schemes demo_doc)) (doc_ops demo_doc) (doc_comps demo_doc)) = false.
+Proof. exact sections_flows_example. Qed.
+
+(* GET /items/{id} + DELETE /items/{itemId}: accepted by gleece's validators, refused by the modelled
+   kin-openapi rule in both dialects (the 3.0 document is built first), although each operation
+   on its own is well-formed *)
+Example C08_renamed_variable :
+  gleece_accepts renamed_u = true /\
+  cmd lib_model_ok (lib_model_ok_v V31) V30 renamed_u = Failed /\
+  cmd lib_model_ok (lib_model_ok_v V31) V31 renamed_u = Failed /\
+  match emit V30 renamed_u with Some d => wf d | None => false end = true.
+Proof. exact renamed_example. Qed.
+
 Example C08_nonvacuous_hyps :
   well_linked V31 demo_u /\ unique_type_names demo_u /\ universe_ok demo_u /\
   ~ well_linked_b V30 demo_u = true.
@@ -86,4 +105,6 @@ Print Assumptions C08_well_linked_decidable.
 Print Assumptions C08_wf_refuted.
 Print Assumptions C08_enum_refuted.
 Print Assumptions C08_nonvacuous.
+Print Assumptions C08_sections_flows.
+Print Assumptions C08_renamed_variable.
 Print Assumptions C08_nonvacuous_hyps.
